@@ -37,6 +37,12 @@ Proof.
   unfold zlen in *. apply skipn_app_le. lia.
 Qed.
 
+Lemma skipn_skipn_add {A} (y : nat) : forall (x : nat) (l : list A), skipn x (skipn y l) = skipn (y + x) l.
+Proof.
+  induction y as [|y IH]; intros x l; [reflexivity|].
+  destruct l as [|a l]; [rewrite !skipn_nil; reflexivity|]. cbn [Nat.add]. rewrite !skipn_cons. apply IH.
+Qed.
+
 (* ---------- the receive loop for ANY pair of shim functions ----------------------------------- *)
 Section RecvProofs.
   Variable cst : Type.
@@ -386,6 +392,86 @@ Section RecvProofs.
   Theorem enc_delivered_inv c0 sq0 chunks : 0 <= sq0 < M32 ->
     elog_ok sq0 (fold_left feed chunks (einit c0 sq0)).
   Proof. intros H. apply elog_ok_fold, elog_ok_init, H. Qed.
+
+  (* ---------- T2b: the verified packets are contiguous wire segments that tile the stream ---------- *)
+  Definition ewire (e : vrec cst) : bytes := vraw e ++ vrest e ++ vmac e.
+  Definition epending (s : state) : bytes := match eph s with EBody raw _ _ => raw | EHdr => [] end.
+
+  (* the wire images of the deliveries so far, in order, are a prefix of the input; while the
+     connection is alive what follows them is exactly the header block in hand plus the buffer *)
+  Definition etiles_ok (inp : bytes) (s : state) : Prop :=
+    exists tail, concat (map ewire (elog s)) ++ tail = inp /\ (est s = SOk -> tail = epending s ++ ebuf s).
+
+  Lemma py_split3 (l : bytes) a b : 0 <= a <= b -> b <= zlen l ->
+    l = py_slice l 0 a ++ py_slice l a b ++ py_from l b.
+  Proof.
+    intros Ha Hb. rewrite !py_slice_in, py_from_in by lia. change (Z.to_nat 0) with 0%nat. rewrite skipn_O, Z.sub_0_r.
+    rewrite <- (firstn_skipn (Z.to_nat a) l) at 1. f_equal.
+    rewrite <- (firstn_skipn (Z.to_nat (b - a)) (skipn (Z.to_nat a) l)) at 1. f_equal.
+    rewrite skipn_skipn_add. f_equal. lia.
+  Qed.
+
+  Lemma etiles_step inp s s' : eokp s -> step s = Some s' -> etiles_ok inp s -> etiles_ok inp s'.
+  Proof.
+    intros Hok H (tail & Hin & Htail).
+    destruct (estep_cases _ _ H) as [Hst [(Hph & Hlen & c' & first & lenb & Edh & ->)|(raw & first & n & Hph & Hlen & Hb)]].
+    - exists tail. cbn [elog est eph ebuf epending]. split; [exact Hin|]. intros _.
+      rewrite (Htail Hst). unfold epending. rewrite Hph. cbn [app]. symmetry. apply firstn_skipn.
+    - cbv zeta in Hb. destruct Hb as (c' & r & Edp & Hr).
+      unfold eokp in Hok. rewrite Hph in Hok.
+      destruct Hr as [(pd & -> & Hne & [[Ep ->]|[Ep ->]])|[_ ->]].
+      + exists tail. cbn [elog est]. split; [exact Hin|discriminate].
+      + exists (py_from (ebuf s) (4 + n + macsz - bs)). cbn [elog est eph ebuf]. split; [|intros _; reflexivity].
+        rewrite map_app, concat_app. cbn [map concat]. rewrite app_nil_r. unfold ewire at 2. cbn [vraw vrest vmac].
+        rewrite <- Hin, (Htail Hst). unfold epending. rewrite Hph. rewrite <- !app_assoc. do 2 f_equal.
+        symmetry. apply py_split3; lia.
+      + exists tail. cbn [elog est]. split; [exact Hin|discriminate].
+  Qed.
+
+  Lemma etiles_Rs inp s t : eRs s t -> eshort t = false -> eokp s -> etiles_ok inp s -> etiles_ok inp t /\ eokp t.
+  Proof.
+    induction 1 as [s|s s' s'' [_ HR] Hrest IH]; intros Hsh Hok Ht; [split; assumption|].
+    apply IH; [exact Hsh| |eapply etiles_step; eassumption].
+    eapply eokp_step; [exact HR|]. eapply eshort_Rs_false; eassumption.
+  Qed.
+
+  Lemma etiles_app inp s c : etiles_ok inp s -> etiles_ok (inp ++ c) (eapp s c).
+  Proof.
+    intros (tail & Hin & Htail). exists (tail ++ c). cbn [elog est eapp]. split.
+    - rewrite app_assoc, Hin. reflexivity.
+    - intros Hst. rewrite (Htail Hst). unfold epending, eapp. cbn [eph ebuf]. rewrite app_assoc. reflexivity.
+  Qed.
+
+  Lemma etiles_feed inp s c : eshort (feed s c) = false -> eokp s -> etiles_ok inp s ->
+    etiles_ok (inp ++ c) (feed s c) /\ eokp (feed s c).
+  Proof.
+    intros Hsh Hok Ht. apply (etiles_Rs _ (eapp s c)); [apply efeed_Rs|exact Hsh|exact Hok|apply etiles_app, Ht].
+  Qed.
+
+  Lemma eshort_feed_mono s c : eshort s = true -> eshort (feed s c) = true.
+  Proof. intros H. apply (eshort_Rs (eapp s c)); [apply efeed_Rs|exact H]. Qed.
+
+  Lemma eshort_fold_mono chunks : forall s, eshort s = true -> eshort (fold_left feed chunks s) = true.
+  Proof. induction chunks as [|c cs IH]; intros s H; simpl; [exact H|]. apply IH, eshort_feed_mono, H. Qed.
+
+  Lemma etiles_fold chunks : forall inp s, eshort (fold_left feed chunks s) = false -> eokp s -> etiles_ok inp s ->
+    etiles_ok (inp ++ concat chunks) (fold_left feed chunks s).
+  Proof.
+    induction chunks as [|c cs IH]; intros inp s Hsh Hok Ht; simpl in *.
+    - rewrite app_nil_r. exact Ht.
+    - assert (Hc : eshort (feed s c) = false).
+      { destruct (eshort (feed s c)) eqn:E; [|reflexivity]. rewrite (eshort_fold_mono cs _ E) in Hsh. discriminate. }
+      destruct (etiles_feed inp s c Hc Hok Ht) as [Ht' Hok'].
+      rewrite app_assoc. apply IH; assumption.
+  Qed.
+
+  Theorem enc_delivered_tiles c0 sq0 chunks :
+    eshort (fold_left feed chunks (einit c0 sq0)) = false ->
+    etiles_ok (concat chunks) (fold_left feed chunks (einit c0 sq0)).
+  Proof.
+    intros Hsh. apply (etiles_fold chunks [] (einit c0 sq0) Hsh I).
+    exists []. split; [reflexivity|]. intros _. reflexivity.
+  Qed.
 
   (* ---------- T3, generic part: runs over well-formed wire packets ----------------------------- *)
   Lemma py_payload_nil_ne pd : py_payload pd <> [] -> pd <> [].
